@@ -5,6 +5,8 @@ cd /verif || exit 2
 if ! git -C /repo diff --quiet; then echo "/repo has uncommitted changes"; exit 2; fi
 seeds=("$@"); if [ ${#seeds[@]} -eq 0 ]; then seeds=($(ls seeded | grep -E '^C[0-9]+(-r[0-9]+(-[a-z]+)?)?-m[0-9]+$' | sort)); fi
 out=seeded/RESULTS.md
+# MERGE=1: only the named seeds are run; their rows replace / join those already in RESULTS.md
+if [ "${MERGE:-0}" = "1" ] && [ -f $out ]; then cp $out /verif/work/RESULTS.prev.md; fi
 { echo "# Seeded changes against the quick checks"; echo; echo "(written by tools/seedmatrix.sh on $(date -u +%Y-%m-%dT%H:%MZ); /verif at $(git rev-parse --short HEAD), /repo at $(git -C /repo rev-parse --short HEAD))"; echo; echo "| seed | property | verdict | replay kind | what no longer checks | message |"; echo "|---|---|---|---|---|---|"; } > $out
 for s in "${seeds[@]}"; do
   p=${s%%-*}
@@ -25,5 +27,18 @@ PY
   echo "| $s | $p | $v | $info |" >> $out
   echo "$s $v"
 done
+if [ "${MERGE:-0}" = "1" ] && [ -f /verif/work/RESULTS.prev.md ]; then
+python3 - <<'PY'
+import re
+new=open('/verif/seeded/RESULTS.md').read().split('\n')
+old=open('/verif/work/RESULTS.prev.md').read().split('\n')
+head=[l for l in new if not l.startswith('| C')]
+rows={}
+for l in old+new:
+    m=re.match(r'\| (C\S+) \|',l)
+    if m: rows[m.group(1)]=l
+open('/verif/seeded/RESULTS.md','w').write('\n'.join([l for l in head if l.strip() or True][:6]+[rows[k] for k in sorted(rows)])+'\n')
+PY
+fi
 # leave the evidence files describing the unchanged tree
 echo "done; re-run the affected checks on the clean tree before committing evidence"
